@@ -38,7 +38,7 @@ FAMILIES = ['planes', 'sphere', 'cylinder', 'mixed', 'dup-lower-unflagged',
             'dup-higher-unflagged', 'dup-both-flagged', 'with-tr', 'unused',
             'only-imp0', 'macrobody', 'none', 'in-union', 'via-complement',
             'in-union-branch', 'one-sheet-cone']
-_PER = {'quick': 12, 'thorough': 700}
+_PER = {'quick': 12, 'thorough': 3500}
 KIND = {'*': 'REFLECTION', '+': 'COSINUS'}
 
 
